@@ -1188,7 +1188,55 @@ def unclamped_root_rule(repo, rep, mod, q, what):
             arg = n.args[0]
         if arg is not None:
             roots.append((n, arg))
-    bad = [(n, a) for n, a in roots if isinstance(a, ast.Subscript)]
+    # local names bound once: looked through (qe = m[0, 0]; spread = sqrt(...))
+    binds = {}
+    for n in ast.walk(f.node):
+        if isinstance(n, ast.Assign) and len(n.targets) == 1:
+            t = n.targets[0]
+            if isinstance(t, ast.Name):
+                binds.setdefault(t.id, []).append(n.value)
+            elif isinstance(t, ast.Tuple) and isinstance(n.value, ast.Tuple) and len(t.elts) == len(n.value.elts):
+                for tt, vv in zip(t.elts, n.value.elts):
+                    if isinstance(tt, ast.Name):
+                        binds.setdefault(tt.id, []).append(vv)
+
+    def expand(e, depth=0):
+        if isinstance(e, ast.Name) and len(binds.get(e.id, ())) == 1 and depth < 4:
+            return expand(binds[e.id][0], depth + 1)
+        return e
+
+    def nonneg(e, depth=0):
+        e = expand(e)
+        if depth > 8:
+            return False
+        if isinstance(e, ast.Constant) and isinstance(e.value, (int, float)):
+            return e.value >= 0
+        if isinstance(e, ast.Call):
+            nm = getattr(e.func, 'id', '') or getattr(e.func, 'attr', '')
+            if nm in ('abs', 'fabs', 'sqrt', 'hypot'):
+                return True
+            if nm in ('max', 'maximum') and any(isinstance(expand(x), ast.Constant) and isinstance(expand(x).value, (int, float)) and expand(x).value >= 0 for x in e.args):
+                return True
+            if nm == 'clip' and len(e.args) >= 2 and isinstance(e.args[1], ast.Constant) and isinstance(e.args[1].value, (int, float)) and e.args[1].value >= 0:
+                return True
+            return False
+        if isinstance(e, ast.BinOp):
+            if isinstance(e.op, ast.Pow) and isinstance(e.right, ast.Constant) and isinstance(e.right.value, int) and e.right.value % 2 == 0:
+                return True
+            if isinstance(e.op, ast.Pow) and isinstance(e.right, ast.Constant) and e.right.value == 0.5:
+                return True
+            if isinstance(e.op, (ast.Add, ast.Mult, ast.Div)):
+                return nonneg(e.left, depth + 1) and nonneg(e.right, depth + 1)
+        return False
+
+    def from_matrix(e, depth=0):
+        e = expand(e)
+        if depth > 8:
+            return False
+        if isinstance(e, ast.Subscript):
+            return True
+        return any(from_matrix(c, depth + 1) for c in ast.iter_child_nodes(e) if isinstance(c, ast.expr))
+    bad = [(n, a) for n, a in roots if isinstance(a, ast.Subscript) or (not nonneg(a) and from_matrix(a))]
     if not roots:
         rep.holds('R-DOMAIN', key, where(f, f.node), '%s takes no root itself' % q)
     elif not bad:
